@@ -118,4 +118,27 @@ theorem reads_only_current_state :
     entryFieldsRead = ["Address", "Node", "ServiceAddress", "ServiceID", "ServiceName", "ServicePort",
       "ServiceTags"] := by decide
 
+/-! ### `makeConfig` answers: one result per service, whatever the service yields -/
+
+/-- The goroutine `makeConfig` starts per service takes the semaphore, sends its result and releases the semaphore —
+straight-line code: no branch, no early exit, so a service that yields no command (every routing tag dropped, empty
+name, a failed catalog lookup) still answers; and the collector receives once per element of the collection the
+goroutines were started from. Otherwise `makeConfig` never returns, `Watch` never sends again and the routes of ALL
+services stay frozen. Stream `c14.poison`/`c14.history`/`c14.watch` see that for dropped registrations
+(`update-blocked:makeConfig`); a failed catalog lookup never happens against the fake — hence an obligation. -/
+theorem make_config_always_answers :
+    makeConfigWorker = ["send", "send", "recv"] ∧ collectorAwaitsEverySpawned = true := by decide
+
+/-! ### the consumer of the text: `main.watchBackend` -/
+
+/-- In the loop of `watchBackend` that builds the table, an iteration can end before `route.SetTable` in two places
+only: in front of everything (the unchanged-text test) and after `route.NewTable` (its error). Nothing between
+`route.ParseAliases` / `registry.Default.Register` and `route.NewTable` leaves the iteration: neither the verdict of
+the alias reader nor the outcome of the registration decides whether the table of the current catalog is installed
+(`Model.C14Watch.step`; hypothesis-free `watch_installs_current`). An exit on `Register`'s error is invisible to
+stream `c14.watch` — its scripted backend never fails — hence an obligation. -/
+theorem watch_loop_exits :
+    watchLoopEvents = ["exit", "call route.ParseAliases", "call registry.Default.Register", "call route.NewTable",
+      "exit", "call route.SetTable"] := by decide
+
 end Fabio.Props.C14Facts
